@@ -390,7 +390,8 @@ Fixpoint children_loop (rec : elem -> elem -> path -> res (list op)) (s : list m
       match m_kind d with
       | KDel =>
         do oe <- index "patch.addElemChanges:index" oc (m_old d);
-        let addr := calcAddr oe (es_old st) in
+        (* since 3800168: the per-tag counter, as for kept children (before: es_old st, the index among all children) *)
+        let addr := calcAddr oe (cnt_get (es_cnt st) (e_tag oe)) in
         let st' := mkES (es_old st + 1) (es_new st) (es_lastPath st) (es_cnt st) in
         do rest <- children_loop rec s' oc nc p st';
         Ok (kops ++ ORemove (p ++ [addr]) :: rest)
